@@ -126,7 +126,7 @@ def fault_store(kind, db_path=None, **kw):
 class Proc:
     """One emulated server process."""
 
-    def __init__(self, spec, store, *, idle_timeout=1000.0, backoff=(0.5, 3), name="wf", stack="inproc", lifecycle_db=None, create_rows=False, engine=None, engine_latency=None):
+    def __init__(self, spec, store, *, idle_timeout=1000.0, backoff=(0.5, 3), name="wf", stack="inproc", lifecycle_db=None, create_rows=False, engine=None, engine_latency=None, clock_latency=None):
         import llama_agents.server.server as srv
         import workflows.plugins.basic as basic
         from llama_agents.server import WorkflowServer
@@ -149,7 +149,7 @@ class Proc:
         if stack == "dbos_sub":
             # DBOS server stack with the DBOS engine substituted: the real DBOSIdleReleaseDecorator / EventInterceptorDecorator /
             # TickPersistenceDecorator / SqliteRunLifecycleLock chain (as DBOSRuntime.build_server_runtime wires it) over a BasicRuntime
-            self.dbos_runtime = build_dbos_substitute(fresh, store, idle_timeout, lifecycle_db, latency=engine_latency)
+            self.dbos_runtime = build_dbos_substitute(fresh, store, idle_timeout, lifecycle_db, latency=engine_latency, clock_latency=clock_latency)
             self.server = WorkflowServer(workflow_store=store, runtime=self.dbos_runtime, persistence_backoff=list(backoff))
         else:
             self.server = WorkflowServer(workflow_store=store, idle_timeout=idle_timeout, persistence_backoff=list(backoff))
@@ -188,7 +188,7 @@ class Proc:
         return found[0] if found else None
 
 
-def build_dbos_substitute(basic, store, idle_timeout, lifecycle_db, latency=None):
+def build_dbos_substitute(basic, store, idle_timeout, lifecycle_db, latency=None, clock_latency=None):
     """DBOSRuntime.build_server_runtime's chain with `basic` in DBOSRuntime's place.  The `DBOS` name used by
     llama_agents.dbos.idle_release (retrieve_workflow_async / delete_workflow_async) is bound to the substitute engine."""
     import sqlite3
@@ -241,6 +241,21 @@ def build_dbos_substitute(basic, store, idle_timeout, lifecycle_db, latency=None
         def run_workflow(self, run_id, workflow, init_state, start_event=None, serialized_state=None, serializer=None):
             SubDBOS.calls.append(("run_workflow", run_id, vclock.vnow()))
             return self._decorated.run_workflow(run_id, workflow, init_state, start_event=start_event, serialized_state=None, serializer=serializer)
+
+        def get_internal_adapter(self, workflow):
+            inner = self._decorated.get_internal_adapter(workflow)
+            if not clock_latency:
+                return inner
+            from workflows.runtime.runtime_decorators import BaseInternalRunAdapterDecorator
+
+            class SlowClock(BaseInternalRunAdapterDecorator):
+                """the engine's clock is a durable (journaled) call: reading it takes a round trip"""
+
+                async def get_now(self):
+                    await asyncio.sleep(clock_latency)
+                    return await super().get_now()
+
+            return SlowClock(inner)
 
         def get_external_adapter(self, run_id):
             inner = self._decorated.get_external_adapter(run_id)
